@@ -393,6 +393,13 @@ def first_diff(a, b):
     return None if len(a) == len(b) else min(len(a), len(b))
 
 
+def row_time(line):
+    try:
+        return int(line.split(",")[0])
+    except ValueError:
+        return -1
+
+
 def graph_releases(lines):
     rel = {}
     for line in lines:
@@ -467,16 +474,20 @@ def classify(world, ra, rb):
         # a different exit status after the traces have diverged is a consequence, not a separate finding
         "exit": exits,
     }
-    # arrival draws: the first differing row is the release of a graph of a poisson/gamma job
-    # (in the run where it arrives first) and the release times of that graph differ
-    for line in (la, lb):
-        if line is not None and kind_of(line) == "TASK_GRAPH_RELEASE":
-            p = line.split(",")
-            g = p[4] if len(p) == 7 else p[2]
-            pol = job_policy(world, g)
-            if pol in ("poisson", "gamma") and g in differing_graphs:
-                out.append((f"C09 arrival-times-differ release_policy={pol}: TASK_GRAPH_RELEASE times are not a function of --random_seed", detail))
-                return out
+    # arrival draws: the two traces agree on every row before the earliest arrival that differs
+    # (t*), and every graph arriving at t* in only one of the runs belongs to a poisson / gamma job
+    if differing_graphs:
+
+        def tmin(g):
+            return min(int(x) for x in (rel_a.get(g), rel_b.get(g)) if x is not None)
+
+        t_star = min(tmin(g) for g in differing_graphs)
+        first = [g for g in differing_graphs if tmin(g) == t_star]
+        pols = {job_policy(world, g) for g in first}
+        detail["earliest_differing_arrival"] = {"time": t_star, "graphs": first, "policies": sorted(pols)}
+        if pols <= {"poisson", "gamma"} and all(row_time(x) >= t_star for x in (la, lb) if x is not None):
+            out.append((f"C09 arrival-times-differ release_policy={'+'.join(sorted(pols))}: TASK_GRAPH_RELEASE times are not a function of --random_seed", detail))
+            return out
     idf = [f for f in fields if f in ID_COLUMNS]
     tf = [f for f in fields if f in TIME_COLUMNS]
     if fields and len(idf) == len(fields):
